@@ -1,0 +1,109 @@
+/*   Verification hooks (cargo feature `verif-hooks`, off by default).
+ *
+ *   Thin public wrappers around crate-private DNS items so that an external harness can call the
+ *   real code in-process.  Nothing in here contains logic of its own.
+ */
+use super::dnspkt;
+
+pub use super::bucket::{Clock, GenericTokenBucket};
+pub use super::cache::verif as cache;
+
+/// The crate-private DNS message decoder.
+pub fn parse(buf: &[u8]) -> Result<dnspkt::DNSPkt, String> {
+    super::parse::PktParser::new(buf).get_dns()
+}
+
+/// A name at `offset` of `buf`, as the decoder reads it (compression pointers followed).
+pub fn parse_domain(buf: &[u8], offset: usize) -> Result<dnspkt::Domain, String> {
+    let mut p = super::parse::PktParser::new(buf);
+    for _ in 0..offset {
+        p.get_bytes_for_verif(1)?;
+    }
+    p.get_domain()
+}
+
+pub fn build_dns_message(
+    pkt: &[u8],
+    local_ip: std::net::IpAddr,
+    remote_addr: erbium_net::addr::NetAddr,
+    protocol: super::Protocol,
+) -> Result<super::DnsMessage, super::Error> {
+    super::DnsListenerHandler::build_dns_message(pkt, local_ip, remote_addr, protocol)
+}
+
+pub async fn create_in_reply(msg: &super::DnsMessage, outr: &dnspkt::DNSPkt) -> dnspkt::DNSPkt {
+    super::DnsListenerHandler::create_in_reply(msg, outr).await
+}
+
+pub async fn create_in_error(msg: &super::DnsMessage, err: super::Error) -> dnspkt::DNSPkt {
+    super::DnsListenerHandler::create_in_error(msg, err).await
+}
+
+pub fn prepare_to_send(pkt: &dnspkt::DNSPkt, size: usize) -> Vec<u8> {
+    super::DnsListenerHandler::prepare_to_send(pkt, size)
+}
+
+pub fn create_outquery(id: u16, in_query: &dnspkt::DNSPkt) -> dnspkt::DNSPkt {
+    super::outquery::verif_create_outquery(id, in_query)
+}
+
+/// The ACL entry point followed by the whole chain (router, cache, upstream).
+pub struct AclHandler(super::acl::DnsAclHandler);
+
+impl AclHandler {
+    pub async fn new(conf: crate::config::SharedConfig) -> Self {
+        Self(super::acl::DnsAclHandler::new(conf).await)
+    }
+    pub async fn handle_query(&self, msg: &super::DnsMessage) -> Result<dnspkt::DNSPkt, super::Error> {
+        self.0.handle_query(msg).await
+    }
+}
+
+/// The router followed by cache and upstream.
+pub struct RouteHandler(super::router::DnsRouteHandler);
+
+impl RouteHandler {
+    pub async fn new(conf: crate::config::SharedConfig) -> Self {
+        Self(super::router::DnsRouteHandler::new(conf).await)
+    }
+    pub async fn handle_query(&self, msg: &super::DnsMessage) -> Result<dnspkt::DNSPkt, super::Error> {
+        self.0.handle_query(msg).await
+    }
+}
+
+pub struct RateLimiter(super::IpRateLimiter);
+
+impl RateLimiter {
+    #[allow(clippy::new_without_default)]
+    pub fn new() -> Self {
+        Self(super::IpRateLimiter::new())
+    }
+    pub async fn check(&self, ip: std::net::IpAddr, bytes: usize) -> bool {
+        self.0.check(ip, bytes).await
+    }
+}
+
+pub async fn should_ratelimit(
+    msg: &super::DnsMessage,
+    in_reply: &dnspkt::DNSPkt,
+    in_reply_serialised: &[u8],
+    rate_limiter: &RateLimiter,
+) -> bool {
+    super::DnsListenerHandler::should_ratelimit(msg, in_reply, in_reply_serialised, &rate_limiter.0).await
+}
+
+/// The server cookie this server currently issues for `client` on `msg`'s address pair.
+pub async fn current_server_cookie(msg: &super::DnsMessage, client: &[u8]) -> [u8; 32] {
+    msg.calculate_current_cookie(client).await
+}
+
+/// Whether the cookie carried by `msg` is accepted (current or previous key period).
+pub async fn cookie_is_good(msg: &super::DnsMessage) -> bool {
+    msg.validate_cookie().await == super::CookieStatus::Good
+}
+
+/// Start a new key period now (what `get_keys` does when the period has run out).
+pub async fn rotate_cookie_keys() {
+    let mut cookies = super::COOKIE_KEYS.write().await;
+    *cookies = cookies.rotate();
+}
